@@ -105,6 +105,7 @@ def handleApi (op : String) (f : List (List Q)) : String :=
       | "dir_matrix" => showFields (spikeDirectionalityMatrix kw (toBool (extra.headD 1)) idx L)
       | "isi_lengths" => let t := tr L 0; showFields [isiLengths t.spikes t.ts t.te]
       | "default_thresh_sq" => showQ (defaultThreshSq L)
+      | "auto_thresh_sq" => showQ (defaultThreshSq (prep kw L))
       | "merge" => showTrains [mergeTrains L]
       | "psth" => let r := psthCounts L (extra.headD 1).num.toNat; showFields [r.1, r.2]
       | "poisson" => let t := tr L 0; showFields [poissonFrom t.ts t.te t.spikes]
